@@ -433,6 +433,50 @@ func (c *decCtx) wellTyped(mi *msgInfo, b []byte, merge, discard bool, init *V, 
 	}
 }
 
+// limited: decoding under an explicit RecursionLimit L (and DiscardUnknown): acceptance, value and unknown-field handling
+// must be the reference's at every L, in particular when the nesting depth of the stream equals L (the last permitted
+// level) and one more (rejected)
+func (c *decCtx) limited(mi *msgInfo, b []byte, limit int, discard bool) {
+	si, o := c.si, c.o
+	id := si.id + "." + string(mi.md.Name())
+	key := "decode-limit/" + id
+	q := reflect.New(mi.goType).Interface().(proto.Message)
+	opts := proto.UnmarshalOptions{RecursionLimit: limit, DiscardUnknown: discard}
+	err, pan := catchUnmarshal(opts, append([]byte{}, b...), q)
+	d := dynamicpb.NewMessage(mi.md)
+	rerr, rpan := catchUnmarshal(opts, b, d)
+	res := "err"
+	if pan != nil {
+		res = "panic"
+	} else if err == nil {
+		res = "ok " + si.fromGo(mi, reflect.ValueOf(q)).String()
+	}
+	flags := "-"
+	if discard {
+		flags = "d"
+	}
+	if c.modelOK {
+		o.kase("DECL", []string{si.id, fmt.Sprint(mi.idx), flags, fmt.Sprint(limit), hx(b)}, res)
+	}
+	o.count(fmt.Sprintf("limited_L%d_%s", limit, strings.Fields(res)[0]))
+	o.withKey(key).prop("C06", pan == nil, fmt.Sprintf("%s: Unmarshal(RecursionLimit=%d) of %s panics: %v", id, limit, hx(b), pan))
+	if rpan != nil || pan != nil {
+		return
+	}
+	o.withKey(key).prop("C06", (err == nil) == (rerr == nil), fmt.Sprintf("%s: RecursionLimit=%d discard=%v on %s: generated decoder says %v, the reference says %v", id, limit, discard, hx(b), err, rerr))
+	if err != nil || rerr != nil {
+		return
+	}
+	got := si.normV(mi, si.fromGo(mi, reflect.ValueOf(q)))
+	want := si.normV(mi, si.fromPR(mi, d))
+	o.withKey(key).prop("C03", got.String() == want.String(), fmt.Sprintf("%s: RecursionLimit=%d discard=%v: %s decodes to %s, reference %s", id, limit, discard, hx(b), got, want))
+	if discard {
+		o.withKey(key).prop("C14", !hasUnknown(got), fmt.Sprintf("%s: RecursionLimit=%d DiscardUnknown left unknown bytes at some level: %s decodes to %s", id, limit, hx(b), got))
+	} else {
+		o.withKey(key).prop("C14", got.String() == want.String(), fmt.Sprintf("%s: RecursionLimit=%d: unknown bytes differ from the reference's: %s vs %s", id, limit, got, want))
+	}
+}
+
 func hasUnknown(v *V) bool {
 	if v == nil {
 		return false
@@ -568,6 +612,12 @@ func engineDecode(cfg config, o *out) {
 				c.wellTyped(mi, m1, false, false, nil, "mutated")
 				if k%3 == 0 {
 					c.wellTyped(mi, mut.mutate(mi, m1, 2), false, true, nil, "mutated-discard")
+				}
+				if k%5 == 0 {
+					// explicit recursion limits around the stream's own nesting depth (values are generated 3 levels deep)
+					for _, L := range []int{1, 2, 3, 4, 5} {
+						c.limited(mi, m1, L, k%2 == 0)
+					}
 				}
 				if k%2 == 0 && len(encs) > 1 {
 					// concatenation = merge; and Merge into a non-empty message
